@@ -41,6 +41,21 @@ TARGETS = [
     ("radioactivedecay/decaydata.py", "DecayMatricesSympy", "_setup_matrix_e", "zero template for matrix_e"),
     ("radioactivedecay/decaydata.py", "DecayMatricesSympy", "_setup_vector_n0", "zero template for vector_n0"),
     ("radioactivedecay/decaydata.py", "DecayMatrices", "__init__", "templates created once per data set"),
+    ("radioactivedecay/nuclide.py", None, "_build_decay_digraph", "Model/Digraph.v build"),
+    ("radioactivedecay/nuclide.py", "Nuclide", "plot", "hand-off of the graph to networkx"),
+    ("radioactivedecay/plots.py", None, "_parse_nuclide_label", "Model/Digraph.v parse_nuclide_label"),
+    ("radioactivedecay/plots.py", None, "_parse_decay_mode_label", "Model/Digraph.v parse_decay_mode_label"),
+    ("radioactivedecay/inventory.py", "AbstractInventory", "__eq__", "Model/Equality.v inv_eq"),
+    ("radioactivedecay/inventory.py", "AbstractInventory", "__ne__", "Model/Equality.v inv_ne"),
+    ("radioactivedecay/nuclide.py", "Nuclide", "__eq__", "Model/Equality.v nuc_eq"),
+    ("radioactivedecay/nuclide.py", "Nuclide", "__ne__", "Model/Equality.v"),
+    ("radioactivedecay/nuclide.py", "Nuclide", "__hash__", "Model/Equality.v nuc_hash"),
+    ("radioactivedecay/decaydata.py", "DecayData", "__eq__", "Model/Equality.v ds_eq"),
+    ("radioactivedecay/decaydata.py", "DecayData", "__ne__", "Model/Equality.v ds_eq"),
+    ("radioactivedecay/decaydata.py", "DecayMatrices", "__ne__", "Model/Equality.v ds_eq"),
+    ("radioactivedecay/decaydata.py", "DecayMatricesScipy", "__eq__", "Model/Equality.v ds_eq"),
+    ("radioactivedecay/decaydata.py", "DecayMatricesSympy", "__eq__", "Model/Equality.v ds_eq"),
+    ("radioactivedecay/decaydata.py", None, "_csr_matrix_equal", "Model/Equality.v ds_eq"),
     ("radioactivedecay/inventory.py", "AbstractInventory", "__init__", "Model/Inventory.v construct"),
     ("radioactivedecay/inventory.py", "AbstractInventory", "_parse_nuclides", "Model/Inventory.v parse_keys"),
     ("radioactivedecay/inventory.py", "AbstractInventory", "_check_values", "Model/Inventory.v check_values"),
